@@ -354,3 +354,37 @@ def read_ndjson(path, limit=None):
                 if limit and len(out) >= limit:
                     break
     return out
+
+
+# ---------------------------------------------------------------------------------------------
+# Record oracle: one initial state per record line, invariant `Conforms` prints MISMATCH lines.
+
+def validate_records(spec_dir, module, cfg, work, recs_path, chunk=40000, timeout=1500, heap="6g"):
+    """Runs TLC over recs_path (ndjson) in chunks.  Returns (stats, mismatching records).
+    Every record must have been examined (distinct states == records), else Infra."""
+    with open(recs_path) as fh:
+        lines = fh.read().splitlines(True)
+    if not lines:
+        raise Infra("no records were produced")
+    mism = []
+    gen = dist = n = 0
+    cmd = ""
+    for off in range(0, len(lines), chunk):
+        part = lines[off:off + chunk]
+        p = os.path.join(work, "recs_%03d.ndjson" % n)
+        with open(p, "w") as fh:
+            fh.writelines(part)
+        r = run_tlc(spec_dir, module, cfg, os.path.join(work, "tlc_recs_%03d" % n), files={"recs.ndjson": p},
+                    timeout=timeout, heap=heap)
+        if r["violated"]:
+            raise Infra("record oracle failed: " + r["tail"][-1500:])
+        if r["distinct"] != len(part):
+            raise Infra("record oracle examined %d of %d records" % (r["distinct"], len(part)))
+        gen += r["generated"]
+        dist += r["distinct"]
+        cmd = r["cmd"]
+        for m in r["mismatches"]:
+            idx = int(m.strip("<>").split(",")[2])
+            mism.append(json.loads(part[idx - 1]))
+        n += 1
+    return {"records": len(lines), "tlc_states": dist, "cmd": cmd, "chunks": n}, mism
